@@ -13,7 +13,8 @@ CONSTANTS NV, MaxE, Lens, Spds, Heads, HVals, Dirs, TieVals, MaxBad, Limits, Del
 Empty == [nv |-> NV, E |-> <<>>, hd |-> <<>>, src |-> 1, dst |-> 0, dir |-> "fwd",
           wd |-> 1, wt |-> 0, rd |-> 1, rt |-> 1, sur |-> <<>>, acc |-> "none",
           delay |-> [i \in 1..8 |-> 0], ok |-> <<>>, bad |-> {}, h |-> [v \in 1..NV |-> 0],
-          itl |-> -1, szl |-> -1, init |-> <<0, 0>>, ties |-> FALSE, cu |-> <<1000, 1, 1000, 1>>, rtf |-> 0, rtx |-> FALSE]
+          itl |-> -1, szl |-> -1, init |-> <<0, 0>>, ties |-> FALSE, cu |-> <<1000, 1, 1000, 1>>, rtf |-> 0, rtx |-> FALSE,
+          od |-> 0, ot |-> 0]
 
 (* named constant values (the cfg parser has no negative numbers / nested tuples) *)
 NoLimits == {<<-1, -1>>}
@@ -31,6 +32,10 @@ SomeRt == {<<0, FALSE>>, <<1, TRUE>>, <<2, TRUE>>, <<1, FALSE>>, <<2, FALSE>>, <
 BaseCU == {<<1000, 1, 1000, 1>>}                       \* state features in metres and seconds
 MixedCU == {<<1, 1, 50, 3>>, <<1000, 1, 5, 18>>, <<1, 1, 1000, 1>>}   \* km + minutes, m + hours, km + seconds
 Blend == {<<1, 0, 1, 1>>, <<0, 1, 1, 1>>, <<1, 1, 1, 2>>, <<2, 1, 1, 1>>}
+(* weights, rate factors and rate offsets <<wd, wt, rd, rt, od, ot>>: rates with a constant term, also after a zero factor *)
+BlendOff == {<<1, 0, 1, 1, 2, 0>>, <<1, 1, 1, 2, 1, 3>>, <<2, 1, 0, 1, 1, 0>>, <<0, 1, 1, 1, 5, 1>>, <<1, 1, 2, 1, 0, 0>>}
+OffD(w) == IF Len(w) >= 6 THEN w[5] ELSE 0
+OffT(w) == IF Len(w) >= 6 THEN w[6] ELSE 0
 
 KeyLE(a, b) == \/ a[1] < b[1]
                \/ a[1] = b[1] /\ a[2] < b[2]
@@ -61,7 +66,7 @@ ConsistentH(s) ==
           far  == IF s.dir = "fwd" THEN s.E[e][2] ELSE s.E[e][1]
           tt   == IF s.E[e][4] = 0 THEN 0 ELSE s.E[e][3] \div s.E[e][4]
           raw  == (s.wd * s.rd * s.E[e][3] * s.cu[1]) \div s.cu[2] + (s.wt * s.rt * tt * s.cu[3]) \div s.cu[4]
-                     + K * s.wd * s.sur[e]
+                     + K * s.wd * s.sur[e] + K * (s.wd * s.od + s.wt * s.ot)
           c    == IF raw <= 0 THEN 0 ELSE raw
       IN s.h[near] <= c + s.h[far]
 
@@ -75,7 +80,7 @@ Start == /\ pc = "build"
                                            !.itl = lim[1], !.szl = lim[2], !.h = hh, !.ok = okv, !.bad = bad,
                                            !.acc = IF \A i \in 1..8 : dl[i] = 0 THEN "none" ELSE "turn",
                                            !.delay = dl,
-                                           !.wd = w[1], !.wt = w[2], !.rd = w[3], !.rt = w[4], !.cu = cuv, !.rtf = rt[1], !.rtx = rt[2]]
+                                           !.wd = w[1], !.wt = w[2], !.rd = w[3], !.rt = w[4], !.od = OffD(w), !.ot = OffT(w), !.cu = cuv, !.rtf = rt[1], !.rtx = rt[2]]
                       IN /\ (NeedConsistent => ConsistentH(s))
                          /\ Setup(s)
 
@@ -100,7 +105,7 @@ Checksum(s) ==
        hv == [v \in 1..s.nv |-> (v + 40) * ((s.h[v] \div 1000) + (s.h[v] % 7))]
    IN SumTo(per, ne) + SumTo(hv, s.nv) + s.src * 19 + s.dst * 23 + (IF s.dir = "fwd" THEN 29 ELSE 0)
       + (s.itl + 2) * 31 + (s.szl + 2) * 37 + Cardinality(s.bad) * 43 + s.wd * 47 + s.wt * 53 + s.rd * 59 + s.rt * 61
-      + s.cu[3] * 67 + s.rtf * 71 + (IF s.rtx THEN 73 ELSE 0) + s.delay[8] * 79 + (IF s.ties THEN 83 ELSE 0)
+      + s.cu[3] * 67 + s.od * 89 + s.ot * 97 + s.rtf * 71 + (IF s.rtx THEN 73 ELSE 0) + s.delay[8] * 79 + (IF s.ties THEN 83 ELSE 0)
 Emit == (pc = "test" /\ iters = 0 /\ DOMAIN tree = {}) =>
            (((Checksum(scn) % atoi(IOEnv.STRIDE)) = atoi(IOEnv.OFFSET)) => PrintT(<<"SCN", ToJson(scn)>>))
 =============================================================================
